@@ -22,20 +22,34 @@ def frames():
 
     d1 = pandas.DataFrame({"a-b": [9.0, 2.0, 6.0, 5.0, 3.0], "a b": [3.0, 1.0, 4.0, 1.0, 5.0], "x": [1.0, 2.0, 4.0, 9.0, 3.0], "w": [2.0, 1.0, 0.5, 3.0, float("nan")],
                            "A": pandas.Series(["p", "q", "r", "p", "q"], dtype=object), "B": pandas.Series(["u", "v", "u", "v", "u"], dtype=object),
-                           "D": pandas.Series(["h", "h", "g", "g", "i"], dtype=object), "E": pandas.Series(["m", "n", "n", "m", "m"], dtype=object)})
+                           "D": pandas.Series(["h", "h", "g", "g", "i"], dtype=object), "E": pandas.Series(["m", "n", "n", "m", "m"], dtype=object),
+                           # what the fit on d1 records for these columns is exactly 0 (smallest value of z0, largest value of zn, mean of zc): a recorded state is a recorded
+                           # state whatever its value, so the reuse on d2 (which reaches beyond both bounds and has another mean) must read it, not re-derive it
+                           "z0": [0.0, 1.0, 2.0, 4.0, 3.0], "zn": [-4.0, -1.0, 0.0, -2.0, -3.0], "zc": [-2.0, -1.0, 0.0, 1.0, 2.0],
+                           "V": [0.5, 1.5, 2.5, 1.5, 0.5]})
     d2 = pandas.DataFrame({"a-b": [1.0, 4.0, 1.0, 4.0], "a b": [2.0, 7.0, 1.0, 8.0], "x": [10.0, -2.0, 0.0, 5.0], "w": [1.0, 1.5, 2.5, 0.25],
                            "A": pandas.Series(["r", "q", "q", "p"], dtype=object), "B": pandas.Series(["v", "v", "u", "u"], dtype=object),
-                           "D": pandas.Series(["g", "h", "i", "h"], dtype=object), "E": pandas.Series(["n", "m", "n", "m"], dtype=object)})
+                           "D": pandas.Series(["g", "h", "i", "h"], dtype=object), "E": pandas.Series(["n", "m", "n", "m"], dtype=object),
+                           "z0": [-2.0, 1.0, 5.0, 3.0], "zn": [1.0, -1.0, -3.0, 2.0], "zc": [3.0, -1.0, 4.0, 2.0], "V": [1.5, 0.5, 2.5, 0.5]})
     return d1, d2
 
 
+def kinds_frame():
+    """d3 of the family "kinds" (Session.tla: ColKind): the names of d1, but A holds numbers and V strings (in d1: A strings, V numbers)"""
+    import pandas
+
+    return pandas.DataFrame({"A": [1.0, 2.0, 3.0, 2.0, 1.0], "V": pandas.Series(["s", "t", "s", "u", "t"], dtype=object), "x": [2.0, 7.0, 1.0, 8.0, 3.0]})
+
+
 # K, LV and SC are objects of the caller's context: a list of knots, a list of levels and an array (they must never be written to)
-FORMULA = "scale(x) + A + B + A:B + poly(w, 2) + C(B, contr.sum):x + A:D:E + B:D:E:A + bs(w, knots=K, extrapolation='clip') + C(D, levels=LV) + I(x * SC[0]) + center(`a b`) + scale(`a b`) + lag(ZZ[:len(x)]) + center(`a b` * `a b`) + center(`a-b`)"
-UFORMULA = "center(x) + B + A + bs(w, df=3) + D:B:E + E:D:A:B + cr(x, knots=K, extrapolation='clip') + C(E, contr.treatment(base=LV2[1]), levels=LV2) + scale(`a b`) + scale(`a-b`) + poly(`a b`, 2) + I(`a b` + x) + lag(ZZ[:len(x)], 2):lag(ZZ[1:len(x) + 1])"
+FORMULA = "scale(x) + A + B + A:B + poly(w, 2) + C(B, contr.sum):x + A:D:E + B:D:E:A + bs(w, knots=K, extrapolation='clip') + C(D, levels=LV) + I(x * SC[0]) + center(`a b`) + scale(`a b`) + lag(ZZ[:len(x)]) + center(`a b` * `a b`) + center(`a-b`) + cr(z0, df=3, extrapolation='clip') + cs(zn, df=3, extrapolation='clip') + bs(z0, df=4, extrapolation='clip') + bs(zn, df=4, extrapolation='clip') + center(zc)"
+UFORMULA = "center(x) + B + A + bs(w, df=3) + D:B:E + E:D:A:B + cr(x, knots=K, extrapolation='clip') + C(E, contr.treatment(base=LV2[1]), levels=LV2) + scale(`a b`) + scale(`a-b`) + poly(`a b`, 2) + I(`a b` + x) + lag(ZZ[:len(x)], 2):lag(ZZ[1:len(x) + 1]) + cc(z0, df=3, extrapolation='clip') + cr(zn, df=3, extrapolation='zero') + scale(zc)"
 # Family "contexts" of Session.tla: the names center / scale / tf / ns.tf are called by the builds of TWO contexts of one caller which bind them to different
 # kinds of callable (Session.tla: Env).  Context c (self.ctx): center, scale are the built-in stateful transforms, tf and ns.tf plain functions of the caller;
 # context x (self.xctx): center, scale are the caller's own plain functions (they shadow the built-ins), tf and ns.tf are decorated as stateful transforms.
 XFORMULA = "center(x) + scale(`a b`) + tf(x) + ns.tf(`a b`) + A:tf(x)"
+# Family "kinds" of Session.tla: the formula does not say what kind a factor is - the column of the frame of each call does (d1: A strings, V numbers; d3: A numbers, V strings)
+KFORMULA = "A + V + x"
 
 
 def plain_tf(col):
@@ -78,7 +92,8 @@ def fp_frame(df) -> str:
 
 
 def fp_formula(f) -> str:
-    return h([[fac.expr for fac in t.factors] for t in f])
+    # a factor is its expression, how it is evaluated and the kind the formula gives it (unknown unless the formula says): all three are "the formula"
+    return h([[(fac.expr, fac.eval_method.value, fac.kind.value) for fac in t.factors] for t in f])
 
 
 def state_repr(x):
@@ -96,7 +111,7 @@ def state_repr(x):
 
 
 def fp_spec(s) -> str:
-    return h([[fac.expr for fac in t.factors] for t in s.formula], s.ensure_full_rank, str(s.na_action), s.output, s.materializer,
+    return h([[(fac.expr, fac.eval_method.value, fac.kind.value) for fac in t.factors] for t in s.formula], s.ensure_full_rank, str(s.na_action), s.output, s.materializer,
              None if s.structure is None else [(str(e.term), [repr(st) for st in e.scoped_terms], list(e.columns)) for e in s.structure],
              state_repr(s.transform_state), state_repr({k: (str(v[0]), state_repr({kk: vv for kk, vv in v[1].items() if kk != "contrasts"})) for k, v in s.encoder_state.items()}))
 
@@ -124,12 +139,16 @@ class Session:
         self.xctx = {"center": plain_center, "scale": plain_scale, "tf": stf, "ns": types.SimpleNamespace(tf=stf)}
         self.f = Formula(FORMULA)
         self.u = ModelSpec.from_spec(UFORMULA)
+        self.d3 = kinds_frame()
+        self.kf = Formula(KFORMULA)                 # ONE Formula object shared by KF1, KF3
+        self.ku = ModelSpec.from_spec(KFORMULA)     # ONE un-materialised spec shared by KU1, KU3
         self.spec1 = None
         self.heap = {}
         self.mat = None      # ONE materializer instance bound to d2, shared by the operations MF, MN, MR
 
     def heap_fps(self):
         out = {"d1": fp_frame(self.d1), "d2": fp_frame(self.d2), "formula": fp_formula(self.f), "uspec": fp_spec(self.u),
+               "d3": fp_frame(self.d3), "kformula": fp_formula(self.kf), "kuspec": fp_spec(self.ku),
                "context": h(sorted((k, ctx_repr(v), type(v).__name__) for k, v in self.ctx.items())),
                "xcontext": h(sorted((k, ctx_repr(v), type(v).__name__) for k, v in self.xctx.items()))}
         if self.spec1 is not None:
@@ -181,6 +200,12 @@ class Session:
         elif op in ("GR", "HR"):           # fitted on d1 and reused at once on d2 (same context): the result shows what the fit recorded in the spec
             c = self.ctx if op == "GR" else self.xctx
             mm = model_matrix(XFORMULA, self.d1, context=c).model_spec.get_model_matrix(self.d2, context=c, drop_rows=drop)
+        elif op in ("KB1", "KB3"):
+            mm = model_matrix(KFORMULA, self.d1 if op == "KB1" else self.d3, drop_rows=drop)
+        elif op in ("KF1", "KF3"):
+            mm = self.kf.get_model_matrix(self.d1 if op == "KF1" else self.d3, drop_rows=drop)
+        elif op in ("KU1", "KU3"):
+            mm = self.ku.get_model_matrix(self.d1 if op == "KU1" else self.d3, drop_rows=drop)
         elif op == "UPD":
             mm = self.ensure_spec1().update(output="numpy").get_model_matrix(self.d2, context=self.ctx, drop_rows=drop)
         else:
